@@ -66,7 +66,7 @@ def _global_decls(tree) -> Set[str]:
 def _literal_only(e: ast.expr) -> bool:
     for n in ast.walk(e):
         if not isinstance(n, (ast.Constant, ast.BinOp, ast.UnaryOp, ast.operator, ast.unaryop, ast.Name,
-                              ast.Attribute, ast.Load)):
+                              ast.Attribute, ast.Load, ast.Tuple)):
             return False
     return True
 
@@ -80,6 +80,11 @@ class _Normalizer:
 
     # ------------------------------------------------------------------ driver
     def run(self):
+        self._collect_properties()
+        for m in self.repo.modules.values():
+            self.m = m
+            if self.props:
+                self._each_function(m, self._inline_properties)
         for m in self.repo.modules.values():
             self.m = m
             self.globals_rebound = _global_decls(m.tree)
@@ -98,8 +103,213 @@ class _Normalizer:
             self._each_function(m, self._generator_form)
             self._each_function(m, self._augment_function)
             self._each_function(m, self._desugar_function)
+            self._each_function(m, self._copy_propagate)
             self._each_function(m, self._fold_function)
             self._each_function(m, self._order_comparisons)
+            self._each_function(m, self._positional_calls)
+            self._each_function(m, self._truth_contexts)
+
+    # ------------------------------------------------------------------ 7. locals that cache an attribute
+    def _copy_propagate(self, fnode, cls, local):
+        from .copyprop import CopyPropagator, StoreSummary
+        if getattr(self, '_store_summary', None) is None:
+            self._store_summary = StoreSummary(self.repo)
+        m = self.m
+        cp = CopyPropagator(self._store_summary, is_logging=lambda call: self.repo.is_logging_call(call, m), cls=cls, mod=m)
+        n = cp.run(fnode)
+        if n:
+            self.stats['alias_uses'] = self.stats.get('alias_uses', 0) + n
+            ast.fix_missing_locations(fnode)
+
+    # ------------------------------------------------------------------ 6. bool() where only truth is asked
+    def _truth_contexts(self, fnode, cls, local):
+        """``if bool(x):`` / ``not bool(x)`` / ``bool(x) and y`` inside a test: the builtin ``bool`` (not shadowed) in a
+        position that only asks for truth is the identity."""
+        if 'bool' in local or 'bool' in self.m.assigns or 'bool' in self.m.imports or 'bool' in self.m.functions \
+                or 'bool' in self.m.classes:
+            return
+
+        def strip(e):
+            while isinstance(e, ast.Call) and isinstance(e.func, ast.Name) and e.func.id == 'bool' and len(e.args) == 1 \
+                    and not e.keywords and not isinstance(e.args[0], ast.Starred):
+                e = e.args[0]
+                self.stats['bool_in_test'] = self.stats.get('bool_in_test', 0) + 1
+            if isinstance(e, ast.UnaryOp) and isinstance(e.op, ast.Not):
+                e.operand = strip(e.operand)
+            elif isinstance(e, ast.BoolOp):
+                # operands of and/or in a truth position are themselves only asked for truth
+                e.values = [strip(v) for v in e.values]
+            return e
+        for n in ast.walk(fnode):
+            if isinstance(n, (ast.If, ast.While, ast.IfExp, ast.Assert)):
+                n.test = strip(n.test)
+            elif isinstance(n, ast.UnaryOp) and isinstance(n.op, ast.Not):
+                n.operand = strip(n.operand)
+            elif isinstance(n, ast.comprehension):
+                n.ifs = [strip(x) for x in n.ifs]
+
+    # ------------------------------------------------------------------ 5. keyword calls of package functions
+    def _positional_calls(self, fnode, cls, local):
+        """``f(x, b=2, a=1)`` on a package function / class that resolves statically becomes ``f(x, 1, 2)`` (constant
+        defaults fill the gaps up to the last parameter given).  Keywords whose values contain calls keep their place unless
+        they already are in parameter order: evaluation order matters to the event trails."""
+        from .srcmodel import ClassRef, FuncRef, NotConst
+        for call in ast.walk(fnode):
+            if not isinstance(call, ast.Call) or not call.keywords:
+                continue
+            if any(isinstance(a, ast.Starred) for a in call.args) or any(k.arg is None for k in call.keywords):
+                continue
+            root = call.func
+            while isinstance(root, ast.Attribute):
+                root = root.value
+            if not isinstance(root, ast.Name) or root.id in local or root.id in ('self', 'cls'):
+                continue
+            try:
+                r = self.repo.resolve_expr(call.func, self.m)
+            except (NotConst, Exception):
+                continue
+            fi = None
+            drop = 0
+            try:
+                if isinstance(r, FuncRef):
+                    fi = self.repo.func(r.module, r.qualname)
+                    if fi.kind in ('method', 'classmethod'):
+                        continue
+                elif isinstance(r, ClassRef):
+                    c = self.repo.cls(r.module, r.name)
+                    if self.repo.is_value_class(c):
+                        continue
+                    fi = c.find_method('__init__')
+                    drop = 1
+            except Exception:
+                fi = None
+            if fi is None:
+                continue
+            a = fi.node.args
+            if a.vararg or a.kwarg or a.kwonlyargs or a.posonlyargs:
+                continue
+            ps = [x.arg for x in a.args][drop:]
+            dmap = dict(zip(ps[len(ps) - len(a.defaults):], a.defaults)) if a.defaults else {}
+            kd = {k.arg: k.value for k in call.keywords}
+            rest = ps[len(call.args):]
+            if len(kd) != len(call.keywords) or not all(k in rest for k in kd):
+                continue
+            order = [k.arg for k in call.keywords]
+            in_order = order == [p_ for p_ in rest if p_ in kd]
+            effects = sum(1 for v in kd.values() if any(isinstance(x, (ast.Call, ast.Yield, ast.Await, ast.NamedExpr))
+                                                        for x in ast.walk(v)))
+            if not in_order and effects > 1:
+                continue
+            last = max(ps.index(k) for k in kd)
+            canon = list(call.args)
+            ok = True
+            for p_ in ps[len(call.args):last + 1]:
+                if p_ in kd:
+                    canon.append(kd[p_])
+                elif p_ in dmap and isinstance(dmap[p_], ast.Constant):
+                    canon.append(ast.copy_location(copy.deepcopy(dmap[p_]), call))
+                else:
+                    ok = False
+                    break
+            if ok:
+                call.args, call.keywords = canon, []
+                self.stats['positional_calls'] = self.stats.get('positional_calls', 0) + 1
+
+    # ------------------------------------------------------------------ 0. read-only properties introduced as names
+    def _collect_properties(self):
+        """``@property def is_idle(self): return <expr>`` that did not exist when the rule instances were confirmed, has no
+        setter, and whose name means nothing else anywhere in the package (no other class defines it, nothing stores to it):
+        ``x.is_idle`` can only be this property, and reads as ``<expr>`` with ``self`` := ``x``."""
+        from .oracles.inventory import FUNCTIONS
+        self.props: Dict[str, Tuple[object, ast.expr]] = {}
+        defs: Dict[str, List[object]] = {}
+        stored: Set[str] = set()
+        for m in self.repo.modules.values():
+            for c in m.classes.values():
+                for name in list(c.methods) + list(c.attrs) + list(c.setters):
+                    defs.setdefault(name, []).append(c)
+            for n in ast.walk(m.tree):
+                if isinstance(n, ast.Attribute) and isinstance(n.ctx, (ast.Store, ast.Del)):
+                    stored.add(n.attr)
+                elif isinstance(n, ast.Call) and isinstance(n.func, ast.Name) and n.func.id in ('setattr', 'delattr') \
+                        and len(n.args) >= 2:
+                    # (a computed name cannot legitimately hit the property's own class -- a property without setter rejects
+                    # the store -- and other classes' attributes are the named ones collected here)
+                    if isinstance(n.args[1], ast.Constant):
+                        stored.add(n.args[1].value)
+        for m in self.repo.modules.values():
+            for c in m.classes.values():
+                for name, fi in c.methods.items():
+                    if fi.kind != 'property' or fi.key in FUNCTIONS or name in stored or len(defs.get(name, [])) != 1:
+                        continue
+                    if len(fi.node.decorator_list) != 1 or len(fi.node.args.args) != 1:
+                        continue
+                    body = _body(fi.node)
+                    if len(body) != 1 or not isinstance(body[0], ast.Return) or body[0].value is None:
+                        continue
+                    e = body[0].value
+                    if any(isinstance(x, (ast.Yield, ast.YieldFrom, ast.Await, ast.Lambda, ast.NamedExpr, ast.ListComp,
+                                          ast.SetComp, ast.DictComp, ast.GeneratorExp)) for x in ast.walk(e)):
+                        continue
+                    self.props[name] = (fi, e)
+
+    def _inline_properties(self, fnode, cls, local):
+        import builtins
+        me = self
+
+        def portable(fi, e) -> bool:
+            """every free name of the expression means the same thing in this module"""
+            slf = fi.node.args.args[0].arg
+            for x in ast.walk(e):
+                if isinstance(x, ast.Name) and x.id != slf:
+                    if x.id in local:
+                        return False
+                    if fi.module is me.m:
+                        continue
+                    if hasattr(builtins, x.id) and x.id not in me.m.assigns and x.id not in me.m.imports \
+                            and x.id not in me.m.functions and x.id not in me.m.classes \
+                            and x.id not in fi.module.assigns and x.id not in fi.module.imports:
+                        continue
+                    try:
+                        if me.repo.resolve_name(x.id, me.m) != me.repo.resolve_name(x.id, fi.module):
+                            return False
+                    except Exception:
+                        return False
+            return True
+
+        class T(ast.NodeTransformer):
+            def visit_FunctionDef(self, node):
+                return node if node is not fnode else self.generic_visit(node)
+            visit_AsyncFunctionDef = visit_FunctionDef
+
+            def visit_Attribute(self, node):
+                node = self.generic_visit(node)
+                hit = me.props.get(node.attr) if isinstance(node.ctx, ast.Load) else None
+                if hit is None or hit[0].node is fnode:
+                    return node
+                fi, e = hit
+                slf = fi.node.args.args[0].arg
+                uses = sum(1 for x in ast.walk(e) if isinstance(x, ast.Name) and x.id == slf)
+                if (uses > 1 and not _is_simple(node.value)) or not portable(fi, e):
+                    return node
+                recv = node.value
+
+                class R(ast.NodeTransformer):
+                    def visit_Name(self, n):
+                        if n.id == slf:
+                            return copy.deepcopy(recv)
+                        return n
+                new = R().visit(copy.deepcopy(e))
+                for x in ast.walk(new):
+                    if hasattr(x, 'lineno'):
+                        x.lineno, x.end_lineno = node.lineno, getattr(node, 'end_lineno', node.lineno)
+                        x.col_offset, x.end_col_offset = node.col_offset, getattr(node, 'end_col_offset', node.col_offset)
+                ast.copy_location(new, node)
+                me.stats['inlined_properties'] = me.stats.get('inlined_properties', 0) + 1
+                me.inlined.append(('%s:%s' % (me.m.name, fnode.name), fi.key, id(fnode)))
+                return new
+        T().visit(fnode)
+        ast.fix_missing_locations(fnode)
 
     def _each_function(self, m, fn):
         def visit(node, cls, outer: Set[str]):
@@ -115,7 +325,7 @@ class _Normalizer:
         visit(m.tree, None, set())
 
     # ------------------------------------------------------------------ 3. constants
-    def _const_of(self, e: ast.expr, local: Set[str]) -> Optional[ast.Constant]:
+    def _const_of(self, e: ast.expr, local: Set[str]) -> Optional[ast.expr]:
         from .srcmodel import NotConst
         root = e
         while isinstance(root, ast.Attribute):
@@ -140,6 +350,9 @@ class _Normalizer:
             v = self.repo.fold(vals[0], mod)
         except NotConst:
             return None
+        if type(v) is tuple and v and all(type(x) in (int, str, bytes, float) for x in v):
+            # an immutable table of scalars reads as its literal
+            return ast.Tuple(elts=[ast.Constant(value=x) for x in v], ctx=ast.Load())
         if type(v) not in (int, str, bytes, float):
             return None
         return ast.Constant(value=v)
@@ -365,7 +578,7 @@ class _Normalizer:
                     f0 = None
                 if f0 is not None and f0.kind in ('function', 'staticmethod') and f0.parent is None:
                     fi = f0
-        if fi is None or not self.repo.is_helper(fi):
+        if fi is None or not (self.repo.is_helper(fi) or fi.key in getattr(self, 'force_helpers', ())):
             return None
         return fi, recv
 
@@ -773,6 +986,21 @@ def _evaluated_first(test: ast.expr, call: ast.Call) -> bool:
                 return True
         return False
     return find(test)
+
+
+def fused_view(repo, fi, callee_keys):
+    """a copy of function ``fi`` in which the generator functions ``callee_keys`` (anchors the load-time pass leaves alone)
+    are fused into the loops that consume them: the form a rule about producer and consumer together is stated on"""
+    from .srcmodel import FuncInfo
+    n = _Normalizer(repo)
+    n.m = fi.module
+    n.globals_rebound = _global_decls(fi.module.tree)
+    n.force_helpers = set(callee_keys)
+    node = copy.deepcopy(fi.node)
+    n._fuse_in_function(node, fi.cls, _bound_names(node))
+    ast.fix_missing_locations(node)
+    out = FuncInfo(fi.module, fi.cls, fi.name, node, fi.kind, fi.parent)
+    return out, n.stats.get('fused_generators', 0)
 
 
 def normalize_repo(repo) -> Dict[str, int]:
